@@ -174,6 +174,7 @@ class SymWord(_Base):
             if r is not None: return r
         return _Base.__or__(self, other)
     __ror__ = __or__
+    __hash__ = _Base.__hash__       # (defining __eq__ below would otherwise make the class unhashable: decoders that use words as dict keys)
 
     def __eq__(self, other):
         if isinstance(other, _Base):
